@@ -198,19 +198,41 @@ func ldEval(rc *RC, key string, ops map[string]string) ([]ldSite, string, bool) 
 				if ir.Implies(fs, ir.BConst(false)) {
 					site.Fn = "" // infeasible path
 				}
-				for _, o := range []string{"A", "B", "C"} {
-					for _, suffix := range []string{".DataOrder().IsColMajor()", ".oldAP().IsZero()"} {
-						a := ir.BAtom(o + suffix)
-						if ir.Implies(fs, a) {
-							site.Facts[o+suffix] = 1
-						} else if ir.Implies(fs, ir.BNot(a)) {
-							site.Facts[o+suffix] = -1
+				site.Guard = strings.Join(gs, " && ")
+				if site.Fn == "" {
+					continue
+				}
+				// the layout cases this path serves: every assignment of the facts the routine's
+				// arguments depend on that is consistent with the path condition. A fact the
+				// path has established has one value; one it tested inside a compound condition
+				// (col != lazy) or not at all has both, and the arguments must be right for each.
+				var rel []string
+				switch site.Fn {
+				case "gemv":
+					rel = []string{"A.DataOrder().IsColMajor()", "A.oldAP().IsZero()"}
+				case "gemm":
+					rel = []string{"A.DataOrder().IsColMajor()", "A.oldAP().IsZero()", "B.DataOrder().IsColMajor()", "B.oldAP().IsZero()", "C.DataOrder().IsColMajor()"}
+				case "ger":
+					rel = []string{"C.DataOrder().IsColMajor()"}
+				}
+				for m := 0; m < 1<<len(rel); m++ {
+					lits := append([]*ir.BExpr{}, fs...)
+					facts := map[string]int{}
+					for i, a := range rel {
+						if m&(1<<i) != 0 {
+							lits = append(lits, ir.BAtom(a))
+							facts[a] = 1
+						} else {
+							lits = append(lits, ir.BNot(ir.BAtom(a)))
+							facts[a] = -1
 						}
 					}
-				}
-				site.Guard = strings.Join(gs, " && ")
-				if site.Fn != "" {
-					out = append(out, site)
+					if ir.Implies(lits, ir.BConst(false)) {
+						continue // this layout case does not take this path
+					}
+					cs := site
+					cs.Facts = facts
+					out = append(out, cs)
 				}
 			}
 		}
